@@ -42,14 +42,46 @@ def gen(rng, index, tier):
     return {"kind": "run", "dataset": raw, "scheme": sch, "config": config, "amo": rng.random() < 0.4, "meta": meta}
 
 
+def _expand(case):
+    """`departures` cases are stored compactly: n elements, a few nearly identical strict rankings (differing near the end,
+    where a textual rendering of a long array would not show it), one exact duplicate, one incomplete ranking"""
+    import random
+    rng = random.Random(case["n"])
+    n = case["n"]
+    base = list(range(n))
+    raw = []
+    for j in range(4):
+        r = list(base)
+        for _ in range(j):
+            i = rng.randrange(n - 12, n - 4)
+            r[i], r[i + 1] = r[i + 1], r[i]
+        raw.append([[e] for e in r])
+    raw.append([list(b) for b in raw[1]])
+    raw.append([[e] for e in base[:n - 3]])
+    c = dict(case)
+    c["dataset"] = raw
+    return c
+
+
 def impl(case):
     try:
+        if case.get("kind") == "departures":
+            from corankco.algorithms.bioconsert.bioconsert import BioConsert
+            ds, sch, coder, obs, s = common.prep(_expand(case))
+            try:
+                dep = BioConsert()._departure_rankings(ds, sch)
+                dep = [[int(x) for x in row] for row in dep.tolist()]
+            except (AttributeError, TypeError):
+                dep = "unavailable"
+            return {"obs": obs, "dep": dep}
         return biocommon.run_bio(case)
     except Exception as exc:  # noqa: BLE001
         return {"err": "other:" + type(exc).__name__ + ":" + str(exc)[:200]}
 
 
 def ops(case, out):
+    if "err" not in out and case.get("kind") == "departures":
+        return [("bio.departures", [out["obs"], []])]
     if "err" in out or "rankings" not in out:
         return []
     S = lib.scheme_tree(case["scheme"])
@@ -63,6 +95,12 @@ def judge(case, out, answers):
     tags = common.base_tags(case) + ["config:" + case["config"]]
     if "err" in out:
         return {"agree": False, "holds": False, "diff": out["err"], "nontrivial": False, "tags": tags + ["impl-error"]}
+    if case.get("kind") == "departures":
+        # white-box only: the starting points of the local search, on a universe of more than a thousand elements
+        ok = out["dep"] == "unavailable" or out["dep"] == answers[0]
+        return {"agree": ok, "holds": True, "nontrivial": True, "tags": tags + ["size:huge", "departures-only"],
+                "diff": "" if ok else "departure rankings differ on %d elements: model has %d, impl %d" % (
+                    case["n"], len(answers[0]), len(out["dep"]))}
     if "rankings" not in out:
         err = (out.get("run_err") or "").split(":")[0]
         if out.get("starter_err") and err == out["starter_err"] and err in biocommon.REFUSALS:
@@ -86,5 +124,14 @@ def judge(case, out, answers):
     return {"agree": not diff, "holds": holds, "diff": "; ".join(diff)[:3000], "nontrivial": nontrivial, "tags": tags}
 
 
+def fixed_cases(tier):
+    uni = {"b": [0, 2, 2, 0, 2, 2], "t": [2, 2, 0, 2, 2, 0], "scale": 2, "family": "preset"}
+    sizes = [1001] if tier == "quick" else [1001, 1024, 1100]
+    return [{"kind": "departures", "n": n, "dataset": [], "scheme": uni, "config": "default", "amo": True,
+             "meta": {"family": "huge", "kind": "int", "n": n, "m": 6}} for n in sizes]
+
+
 def shrink(case):
+    if case.get("kind") == "departures":
+        return []
     return common.shrink_dataset_case(case)
